@@ -25,7 +25,10 @@ def check(pid, tier):
         with open(os.path.join(wd, f"{pid}-{fl}.log"), "wb") as log:
             try:
                 rc = subprocess.run([vh, "pure", pid, "--tier", tier, "--seed", str(C.seed()), "--threads", str(C.NCPU), "--out", out],
-                                    stdout=log, stderr=log, cwd=wd, timeout=3600 if tier == "thorough" else 600).returncode
+                                    stdout=log, stderr=log, cwd=wd, timeout=3600 if tier == "thorough" else 600,
+                                    # the environment says the process is somewhere else than it is (a stale PWD, a HOME):
+                                    # defaults are documented relative to the real working directory
+                                    env=dict(os.environ, PWD=C.VERIF, OLDPWD="/", HOME=os.path.dirname(wd), TMPDIR=wd)).returncode
             except subprocess.TimeoutExpired:
                 v.note_inconclusive(f"[{fl}] harness hit the wall-clock watchdog")
                 continue
